@@ -177,11 +177,13 @@ func main() {
 	}
 	r.Set("history_scripts", srcs)
 	r.Set("history_alphabet", map[string]interface{}{
-		"script_ops":   "Add(n,v) Remove(n) Compile Run",
-		"compiled_ops": "Run RunContext(background) Set(n,v) Get(n) GetAll IsDefined(n) Clone",
-		"names":        opNames,
-		"values":       "per bound, see history_bounds; Go values nil, 1 (int), \"s\", []interface{}{1}, map[string]interface{}{\"k\": 2}",
-		"values_note":  "the map value is not used with the script `a[0] = 7`",
+		"script_ops":     "Add(n,v) Remove(n) Compile Run",
+		"compiled_ops":   "Run RunContext(background) Set(n,v) Get(n) GetAll IsDefined(n) Clone",
+		"names":          mutNames,
+		"names_note":     "Add/Remove/Set range over {a, out, len} (len is also a builtin function name); zz is never added and is used for Get/IsDefined in every state and for Set(zz,nil), which must fail",
+		"names_observed": obsNames,
+		"values":         "per bound, see history_bounds; Go values nil, 1 (int), \"s\", []interface{}{1}, map[string]interface{}{\"k\": 2}",
+		"values_note":    "the map value is not used with the script `a[0] = 7`",
 	})
 	r.Set("part2_go_values", len(gvs))
 	r.Set("part3_values", len(V))
